@@ -287,3 +287,8 @@ def run_code(code):
         return env["replay"]()
     except BaseException as e:  # noqa
         return (False, "replay raised %s: %s" % (type(e).__name__, e))
+
+
+def is_member(cid, r):
+    c = annot_cases()[cid]
+    return isinstance(r, c.cls)
